@@ -1,7 +1,9 @@
 """Unit `subtype` -- C29 (and the kernels of C14 / C15 that rest on it): `Schema::is_subtype`, the relation that unit `types` ASSUMED
 ("Schema::is_subtype is the schema's subtype relation") when it proved `is_valid_implementation_field_type == IsValidImplementationFieldType`.
 
-Extracted verbatim from crates/apollo-compiler/src/schema/mod.rs: Schema::is_subtype.
+Extracted verbatim from crates/apollo-compiler/src/schema/mod.rs: Schema::is_subtype, Schema::is_input_type, Schema::is_output_type
+(the latter two against IsInputType / IsOutputType of the spec: wrappers looked through, Scalar / Enum / InputObject resp. everything but InputObject;
+they are what the field / argument / variable validators ask to decide "the referenced type has the right kind", C15).
 
 Specification (https://spec.graphql.org/October2021/#IsValidImplementationFieldType(), steps 4.a / 4.b, "possible type"):
 `maybe_subtype` is a subtype of `abstract_type` iff abstract_type is defined and is
@@ -16,10 +18,21 @@ contract; the BODIES are kept verbatim and are checked against it); the expressi
 Shims (trusted): IndexMap::get finds the entry keyed by the text; IndexSet<ComponentName>::contains(&str) is membership of the text;
 `Option::is_some_and(f)` is `Some(x) => f(x), None => false` (std documentation).
 """
+import importlib.util as _ilu
+import os as _os
+_spec = _ilu.spec_from_file_location("verif_unit_types", _os.path.join(_os.path.dirname(_os.path.abspath(__file__)), "types.py"))   # not `import types`: that is the stdlib module
+TY = _ilu.module_from_spec(_spec)
+_spec.loader.exec_module(TY)
+_a = TY.PRELUDE.index("// ---------------- specification (from the spec text) ----------------")
+_b = TY.PRELUDE.index("// https://spec.graphql.org/October2021/#AreTypesCompatible()")
+TYPE_SPEC = TY.PRELUDE[_a:_b]      # spec_non_null .. spec_inner_name, size: the text of unit `types`
+
 SM = "crates/apollo-compiler/src/schema/mod.rs"
 
-PRELUDE = r'''
+PRELUDE = TYPE_SPEC + r'''
 // ---------------- shims (trusted) ----------------
+pub struct Name { pub text: String }
+pub type NamedType = Name;
 pub assume_specification<T, F: FnOnce(T) -> bool>[Option::<T>::is_some_and](o: Option<T>, f: F) -> (r: bool)
     requires o is Some ==> f.requires((o->0,))
     ensures match o { Some(x) => f.ensures((x,), r), None => !r };
@@ -48,6 +61,13 @@ impl TypeMap {
         ensures match r { Some(v) => self@.dom().contains(k@) && *v == self@[k@], None => !self@.dom().contains(k@) }
     { unimplemented!() }
 }
+impl TypeMap {
+    // the same lookup with a Name as the key (IndexMap<Name, _>::get accepts both; a Name compares as its text)
+    #[verifier::external_body]
+    pub fn get_name(&self, k: &Name) -> (r: Option<&ExtendedType>)
+        ensures match r { Some(v) => self@.dom().contains(k.text@) && *v == self@[k.text@], None => !self@.dom().contains(k.text@) }
+    { unimplemented!() }
+}
 pub struct Schema { pub types: TypeMap }
 
 // ---------------- specification ----------------
@@ -63,6 +83,15 @@ pub open spec fn possible_type_of(s: &Schema, abstract_def: ExtendedType, a: Seq
         _ => false,
     }
 }
+/// https://spec.graphql.org/October2021/#IsInputType() / #IsOutputType(): List and Non-Null wrappers are looked through; an undefined name is neither
+pub open spec fn spec_is_input_type(s: &Schema, t: Type) -> bool {
+    let n = spec_inner_name(t).text@;
+    s.types@.dom().contains(n) && (s.types@[n] is Scalar || s.types@[n] is Enum || s.types@[n] is InputObject)
+}
+pub open spec fn spec_is_output_type(s: &Schema, t: Type) -> bool {
+    let n = spec_inner_name(t).text@;
+    s.types@.dom().contains(n) && (s.types@[n] is Scalar || s.types@[n] is Object || s.types@[n] is Interface || s.types@[n] is Union || s.types@[n] is Enum)
+}
 pub open spec fn spec_is_subtype(s: &Schema, a: Seq<char>, m: Seq<char>) -> bool { s.types@.dom().contains(a) && possible_type_of(s, s.types@[a], a, m) }
 '''
 
@@ -76,5 +105,13 @@ UNIT = {
                        ("is_some_and(|ty2| {", "is_some_and(|ty2: &ExtendedType| -> (y: bool) ensures y == declares_implements(*ty2, abstract_type@) {", 1),
                        (r"(?s)\n        \}\)\n    \}\s*$", "\n        }})\n    }\n", 1, "re")],
              clauses=[("ensures", "IsSubType", "r == spec_is_subtype(self, abstract_type@, maybe_subtype@)")]),
+        dict(file="crates/apollo-compiler/src/ast/mod.rs", kind="enum", name="Type", props=["C15"]),
+    ] + [dict(p, props=["C15"]) for p in TY.UNIT["parts"] if isinstance(p, dict) and p.get("container_name") == "Type" and p.get("name") == "inner_named_type"] + [
+        dict(file=SM, kind="fn", name="is_input_type", container="Schema", container_name="Schema", wrap="impl Schema", props=["C15"],
+             rewrites=[("self.types.get(ty.inner_named_type())", "self.types.get_name(ty.inner_named_type())", 1)],
+             clauses=[("ensures", "IsInputType", "r == spec_is_input_type(self, *ty)")]),
+        dict(file=SM, kind="fn", name="is_output_type", container="Schema", container_name="Schema", wrap="impl Schema", props=["C15"],
+             rewrites=[("self.types.get(ty.inner_named_type())", "self.types.get_name(ty.inner_named_type())", 1)],
+             clauses=[("ensures", "IsOutputType", "r == spec_is_output_type(self, *ty)")]),
     ],
 }
